@@ -226,6 +226,61 @@ def check(cx):
                "8192nd transaction a rolled-back transaction becomes visible after a clean reopen (D19)") \
             if _drops_silently(f) else cx.ok(r4, "mark_transaction_aborted:total", f.where(), "every id is recorded or reported")
 
+    # the loader that Database::open uses must be the inverse of mark/is: it enumerates ids through the membership test,
+    # or re-implements the layout in the one form this checker can compare (byte loop x bit loop 0..8, id = byte*8 + bit)
+    f = cx.guard(r4, "get_aborted_transactions", p.fn, HDR + "::get_aborted_transactions")
+    if f and mx:
+        from axvlib.core import natural_loops
+        isa = HDR + "::is_transaction_aborted"
+        loops = natural_loops(f)
+        via_test = False
+        for c in f.calls():
+            if c.callee != isa:
+                continue
+            for h, body in loops:
+                if c.bb not in body:
+                    continue
+                # the loop runs over 0..MAX: a Range aggregate whose end is the constant (possibly cast)
+                for b in f.blocks:
+                    for st in b["stmts"]:
+                        if st["rv"].get("r") == "agg" and st["rv"].get("adt") == "std::ops::Range":
+                            lo, hi = st["rv"]["o"]
+                            klo = op_const(lo) or {}
+                            khi = op_const(hi) or {}
+                            hv = khi.get("v")
+                            if hv is None and op_local(hi) is not None:
+                                for b2 in f.blocks:
+                                    for s2 in b2["stmts"]:
+                                        if s2["dst"] == [op_local(hi)] and s2["rv"].get("r") in ("cast", "use"):
+                                            k2 = op_const(s2["rv"]["o"][0]) or {}
+                                            hv = k2.get("v")
+                                            if hv is None and str(k2.get("cdef", "")).endswith("MAX_TRACKED_ABORTED_TXS"):
+                                                hv = mx
+                            if klo.get("v") == 0 and hv == mx:
+                                via_test = True
+        reads_field = any(any(isinstance(pe, str) and pe.startswith(".aborted_txs_bitmap:") for pe in (st["rv"].get("p") or [])[1:])
+                          for b in f.blocks for st in b["stmts"] if st["rv"].get("r") in ("ref", "rawptr")) or \
+            any(any(isinstance(pe, str) and pe.startswith(".aborted_txs_bitmap:") for pe in (o.get("c") or o.get("m") or [])[1:])
+                for b in f.blocks for st in b["stmts"] for o in (st["rv"].get("o") or []) if isinstance(st["rv"].get("o"), list))
+        simple = False
+        if reads_field and not via_test:
+            ends = set()
+            for b in f.blocks:
+                for st in b["stmts"]:
+                    if st["rv"].get("r") == "agg" and st["rv"].get("adt") == "std::ops::Range":
+                        k = op_const(st["rv"]["o"][1]) or {}
+                        if (op_const(st["rv"]["o"][0]) or {}).get("v") == 0 and "v" in k:
+                            ends.add(k["v"])
+            muls = {(op_const(o) or {}).get("v") for b in f.blocks for st in b["stmts"] if st["rv"].get("r") == "bin" and
+                    st["rv"]["op"] in ("Mul", "MulWithOverflow", "Shl") for o in st["rv"]["o"] if op_const(o)}
+            odd = [c.callee for c in f.calls() if c.callee.rsplit("::", 1)[-1] in ("trailing_zeros", "leading_zeros", "count_ones")]
+            simple = ends == {8} and (8 in muls or 3 in muls) and not odd
+        cx.verdict(via_test or simple, r4, "get_aborted_transactions:inverse-of-membership", f.where(),
+                   "enumerates 0..MAX through is_transaction_aborted" if via_test else "byte x bit(0..8) loop, id = byte*8 + bit",
+                   "get_aborted_transactions decodes the bitmap with its own bit arithmetic that does not visibly cover bits 0..8 of every "
+                   "byte with id = byte*8 + bit (and does not go through is_transaction_aborted): after a clean reopen some rolled-back "
+                   "transactions are not loaded as aborted (their rows become visible) or others are loaded wrongly")
+
     # ---- C09.4b every abort path reaches the bitmap ------------------------------------------------------
     r4b = cx.rule("C09.4b", "MPT/WMC: TransactionCoordinator::abort persists the id on every success path and all "
                   "rollback funnels (Session::abort_transaction, Drop for Session, Drop for TransactionHandle) reach it", floor=4)
